@@ -769,3 +769,28 @@ package interpreter
 //@   ensures [at-most-four] {C07} len(result) <= 4
 //@   ensures [pairing-in-order] {C07} forallstr(a, b, b != KEPT_ADDR ==> flowOf(result, a, b) == ite(s1n == a && r1n == b, ov(0, S1, 0, R1), 0) + ite(s1n == a && r2n == b, ov(0, S1, R1, R1 + R2), 0) + ite(s2n == a && r1n == b, ov(S1, S1 + S2, 0, R1), 0) + ite(s2n == a && r2n == b, ov(S1, S1 + S2, R1, R1 + R2), 0))
 //@   ensures [kept-is-not-posted] {C07} forallstr(a, flowOf(result, a, KEPT_ADDR) == 0)
+
+//@ spec flowOf6(ps, a, b) = flowOf(ps, a, b) + ite(len(ps) > 4 && ps[4].Source == a && ps[4].Destination == b, val(ps[4].Amount), 0) + ite(len(ps) > 5 && ps[5].Source == a && ps[5].Destination == b, val(ps[5].Amount), 0)
+//@ func reconcilePairing3x2
+//@   unroll 10
+//@   requires [amounts] s1 != nil && s2 != nil && s3 != nil && r1 != nil && r2 != nil && val(s1) > 0 && val(s2) > 0 && val(s3) > 0 && val(r1) > 0 && val(r2) > 0 && s1 != s2 && s1 != s3 && s2 != s3 && s1 != r1 && s1 != r2 && s2 != r1 && s2 != r2 && s3 != r1 && s3 != r2 && r1 != r2
+//@   requires [balanced] val(s1) + val(s2) + val(s3) == val(r1) + val(r2)
+//@   let S1 = old(val(s1))
+//@   let S2 = old(val(s2))
+//@   let S3 = old(val(s3))
+//@   let R1 = old(val(r1))
+//@   let R2 = old(val(r2))
+//@   ensures [at-most-six] {C07} len(result) <= 6
+//@   ensures [pairing-in-order] {C07} forallstr(a, b, b != KEPT_ADDR ==> flowOf6(result, a, b) == ite(s1n == a && r1n == b, ov(0, S1, 0, R1), 0) + ite(s1n == a && r2n == b, ov(0, S1, R1, R1 + R2), 0) + ite(s2n == a && r1n == b, ov(S1, S1 + S2, 0, R1), 0) + ite(s2n == a && r2n == b, ov(S1, S1 + S2, R1, R1 + R2), 0) + ite(s3n == a && r1n == b, ov(S1 + S2, S1 + S2 + S3, 0, R1), 0) + ite(s3n == a && r2n == b, ov(S1 + S2, S1 + S2 + S3, R1, R1 + R2), 0))
+
+//@ func reconcilePairing2x3
+//@   unroll 10
+//@   requires [amounts] s1 != nil && s2 != nil && r1 != nil && r2 != nil && r3 != nil && val(s1) > 0 && val(s2) > 0 && val(r1) > 0 && val(r2) > 0 && val(r3) > 0 && s1 != s2 && s1 != r1 && s1 != r2 && s1 != r3 && s2 != r1 && s2 != r2 && s2 != r3 && r1 != r2 && r1 != r3 && r2 != r3
+//@   requires [balanced] val(s1) + val(s2) == val(r1) + val(r2) + val(r3)
+//@   let S1 = old(val(s1))
+//@   let S2 = old(val(s2))
+//@   let R1 = old(val(r1))
+//@   let R2 = old(val(r2))
+//@   let R3 = old(val(r3))
+//@   ensures [at-most-six] {C07} len(result) <= 6
+//@   ensures [pairing-in-order] {C07} forallstr(a, b, b != KEPT_ADDR ==> flowOf6(result, a, b) == ite(s1n == a && r1n == b, ov(0, S1, 0, R1), 0) + ite(s1n == a && r2n == b, ov(0, S1, R1, R1 + R2), 0) + ite(s1n == a && r3n == b, ov(0, S1, R1 + R2, R1 + R2 + R3), 0) + ite(s2n == a && r1n == b, ov(S1, S1 + S2, 0, R1), 0) + ite(s2n == a && r2n == b, ov(S1, S1 + S2, R1, R1 + R2), 0) + ite(s2n == a && r3n == b, ov(S1, S1 + S2, R1 + R2, R1 + R2 + R3), 0))
